@@ -767,11 +767,15 @@ def _encode_ints(values):
     return bz2.compress(values)
 
 #===============================================================================
-def _decode_ints(values, shape):
-    """Decode an integer array using BZ2 decompression."""
+def _decode_ints(values, shape, dtype='int'):
+    """Decode an integer array using BZ2 decompression.
+
+    The dtype defaults to 'int' for states written before the dtype was
+    recorded in the ('INT', ...) step.
+    """
 
     bz2_bytes = bz2.decompress(values)
-    return np.frombuffer(bz2_bytes, dtype='int').reshape(shape)
+    return np.frombuffer(bz2_bytes, dtype=dtype).reshape(shape)
 
 #===============================================================================
 def _encode_bools(values):
@@ -824,7 +828,9 @@ def __getstate__(self):
                           for any floating-point compression performed.
       ('BOOL', shape, size)
                           if packbits plus BZ2 compression was performed.
-      ('INT', shape)      if BZ2 compression of integers was performed.
+      ('INT', shape, dtype)
+                          if BZ2 compression of integers was performed; dtype is
+                          the NumPy dtype string of the array, e.g. '<i4'.
     """
 
     # Start with a shallow clone; save derivatives for later
@@ -901,7 +907,8 @@ def __getstate__(self):
         # Integers use straight BZ2-encoding
         elif dtype == 'int':
             shape = clone._values_.shape
-            clone.VALS_ENCODING.append(('INT', shape))
+            clone.VALS_ENCODING.append(('INT', shape,
+                                               clone._values_.dtype.str))
             clone._values_ = _encode_ints(clone._values_)
 
         # Booleans use BZ2-encoding of the packed bits
@@ -996,8 +1003,9 @@ def __setstate__(self, state):
         method = encoding[0]
 
         if method == 'INT':
-            (_, shape) = encoding
-            self._values_ = _decode_ints(self._values_, shape)
+            shape = encoding[1]
+            dtype = encoding[2] if len(encoding) > 2 else 'int'
+            self._values_ = _decode_ints(self._values_, shape, dtype)
 
         elif method == 'BOOL':
             (_, shape, size) = encoding
@@ -1012,7 +1020,7 @@ def __setstate__(self, state):
             if antimask is None:
                 raise ValueError('missing antimask for decoding')
             new_values = np.empty(self._shape_ + self._item_,
-                                  dtype=Qube._dtype(self._default_))
+                                  dtype=self._values_.dtype)
             new_values[...] = self._default_
             new_values[antimask] = self._values_
             self._values_ = new_values
